@@ -894,6 +894,9 @@ pub fn replay(args: &[String]) -> i32 {
         eprintln!("HARNESS-ERROR: replay file is for the {} build", doc["build"]);
         return 2;
     }
+    if doc["crash"] == true {
+        return replay_crash(&doc, file);
+    }
     let plan = Plan::from_json(&doc["plan"]);
     let apps = Apps::new();
     let vs = evaluate(&plan, &apps, &pool, true, None);
@@ -909,5 +912,218 @@ pub fn replay(args: &[String]) -> i32 {
         }
         println!("VIOLATION property={property} replay={file}");
         1
+    }
+}
+
+// ---------------------------------------------------------------------------
+// crash containment: a change that makes generated code overflow the stack,
+// abort (panic in drop while unwinding) or otherwise kill the process cannot
+// be caught in-process. `run.sh` calls `crash-triage` when the search process
+// dies by a signal: runs are a pure function of (seed, index), so the dying
+// run is found by executing index ranges in child processes, then minimised
+// with one child process per candidate plan.
+// ---------------------------------------------------------------------------
+
+/// `gensim range <ID> --seed S --from a --to b`: single-threaded, silent.
+pub fn range(args: &[String]) -> i32 {
+    let Some(pool) = args.get(2).and_then(|p| pool_for(p)) else { return 2 };
+    let seed: u64 = arg_value(args, "--seed").and_then(|s| s.parse().ok()).unwrap_or(0);
+    let from: u64 = arg_value(args, "--from").and_then(|s| s.parse().ok()).unwrap_or(0);
+    let to: u64 = arg_value(args, "--to").and_then(|s| s.parse().ok()).unwrap_or(0);
+    let apps = Apps::new();
+    for i in from..to {
+        let mut rng = Rng::for_run(seed, i);
+        let plan = gen_plan(&mut rng, &pool);
+        let _ = evaluate(&plan, &apps, &pool, true, None);
+    }
+    0
+}
+
+/// `gensim plan-exec <file>`: executes one plan (from a replay-style file).
+pub fn plan_exec(args: &[String]) -> i32 {
+    let Some(file) = args.get(2) else { return 2 };
+    let Some(doc) = std::fs::read_to_string(file).ok().and_then(|t| serde_json::from_str::<Value>(&t).ok()) else { return 2 };
+    let Some(pool) = doc["property"].as_str().and_then(pool_for) else { return 2 };
+    let plan = Plan::from_json(&doc["plan"]);
+    let apps = Apps::new();
+    let v = evaluate(&plan, &apps, &pool, true, None);
+    if v.is_empty() {
+        0
+    } else {
+        1
+    }
+}
+
+fn died_by_signal(status: &std::process::ExitStatus) -> Option<i32> {
+    use std::os::unix::process::ExitStatusExt;
+    status.signal()
+}
+
+fn child(exe: &Path, args: &[String], timeout_s: u64) -> Option<std::process::ExitStatus> {
+    let mut c = std::process::Command::new("timeout")
+        .arg("-k").arg("2").arg(timeout_s.to_string())
+        .arg(exe)
+        .args(args)
+        .stdout(std::process::Stdio::null())
+        .stderr(std::process::Stdio::null())
+        .spawn()
+        .ok()?;
+    c.wait().ok()
+}
+
+fn plan_dies(exe: &Path, property: &str, plan: &Plan, tmp: &Path) -> Option<i32> {
+    let doc = json!({"property": property, "plan": plan.to_json()});
+    std::fs::write(tmp, doc.to_string()).ok()?;
+    let st = child(exe, &["plan-exec".into(), tmp.display().to_string()], 5)?;
+    // `timeout` re-raises nothing: a signalled child shows as 128+sig; 124 / 137 = it hung
+    match (died_by_signal(&st), st.code()) {
+        (Some(s), _) => Some(s),
+        (None, Some(124)) | (None, Some(137)) => Some(0),
+        (None, Some(c)) if c >= 128 => Some(c - 128),
+        _ => None,
+    }
+}
+
+pub fn crash_triage(args: &[String]) -> i32 {
+    let t0 = simcore::real_now_s();
+    let Some(property) = args.get(2).cloned() else { return 2 };
+    let Some(pool) = pool_for(&property) else { return 2 };
+    let tier = arg_value(args, "--tier").unwrap_or_else(|| "quick".into());
+    let tier: &str = if tier == "thorough" { "thorough" } else { "quick" };
+    let seed = arg_value(args, "--seed").and_then(|s| s.parse::<i64>().ok()).map(|v| v as u64).unwrap_or_else(simcore::env_seed);
+    let verif = PathBuf::from(arg_value(args, "--verif").unwrap_or_else(|| "/verif".into()));
+    let part = arg_value(args, "--part").unwrap_or_else(|| "first".into());
+    let seed_eff = if UNIMOCK_BUILD { seed ^ 0x756e_696d_6f63_6b00 } else { seed };
+    let exe = std::env::current_exe().expect("current_exe");
+    let tmp = verif.join("scratch").join(format!("gensim-triage-{}.json", std::process::id()));
+    let _ = std::fs::create_dir_all(tmp.parent().unwrap());
+    println!("gensim: the search process died; locating the run in child processes (runs are a pure function of (seed, index))");
+    // doubling ranges until one dies
+    let dies_in = |from: u64, to: u64| -> bool {
+        let st = child(&exe, &["range".into(), property.clone(), "--seed".into(), seed_eff.to_string(), "--from".into(), from.to_string(), "--to".into(), to.to_string()], 3 + (to - from) / 20_000);
+        match st {
+            Some(st) => died_by_signal(&st).is_some() || st.code().map(|c| c >= 124).unwrap_or(false),
+            None => false,
+        }
+    };
+    let mut lo = 0u64;
+    let mut hi = 64u64;
+    let mut found = false;
+    while lo < 4_000_000 {
+        if dies_in(lo, hi) {
+            found = true;
+            break;
+        }
+        lo = hi;
+        hi *= 4;
+    }
+    if !found {
+        eprintln!("HARNESS-ERROR: the search process died but no single run reproduces the death in isolation");
+        return 2;
+    }
+    while hi - lo > 1 {
+        let mid = (lo + hi) / 2;
+        if dies_in(lo, mid) {
+            hi = mid;
+        } else {
+            lo = mid;
+        }
+    }
+    let index = lo;
+    let mut rng = Rng::for_run(seed_eff, index);
+    let plan = gen_plan(&mut rng, &pool);
+    let Some(sig) = plan_dies(&exe, &property, &plan, &tmp) else {
+        eprintln!("HARNESS-ERROR: run {index} does not die when executed alone");
+        return 2;
+    };
+    // minimise: tasks, then calls
+    let mut best = plan.clone();
+    let mut execs = 0u64;
+    {
+        let tasks = best.tasks.clone();
+        let base = best.clone();
+        best.tasks = simcore::ddmin::ddmin(tasks, &mut |cand| {
+            if cand.is_empty() {
+                return false;
+            }
+            execs += 1;
+            let mut p = base.clone();
+            p.tasks = cand.to_vec();
+            plan_dies(&exe, &property, &p, &tmp).is_some()
+        });
+        for ti in 0..best.tasks.len() {
+            let calls = best.tasks[ti].calls.clone();
+            let base = best.clone();
+            best.tasks[ti].calls = simcore::ddmin::ddmin(calls, &mut |cand| {
+                if cand.is_empty() {
+                    return false;
+                }
+                execs += 1;
+                let mut p = base.clone();
+                p.tasks[ti].calls = cand.to_vec();
+                plan_dies(&exe, &property, &p, &tmp).is_some()
+            });
+        }
+        let mut p = best.clone();
+        p.decisions.clear();
+        p.cfg.p_cancel = 0;
+        p.cfg.p_spurious = 0;
+        p.cfg.leaf_panic_pm = 0;
+        execs += 1;
+        if plan_dies(&exe, &property, &p, &tmp).is_some() {
+            best = p;
+        }
+    }
+    let _ = std::fs::remove_file(&tmp);
+    let mname = best.tasks.first().and_then(|t| t.calls.first()).map(|c| MODEL[c.method as usize].name).unwrap_or("-");
+    let path = verif.join("replays").join(format!("{property}-{seed}-{}-run{index}-crash.json", if UNIMOCK_BUILD { "unimock" } else { "default" }));
+    let message = if sig == 0 {
+        format!("a call of `{mname}` through its generated trait method never returns (the process had to be killed after a timeout; the executor and the corpus bodies are step-bounded)")
+    } else {
+        format!("the process was killed by signal {sig} (stack overflow / abort) while executing a call of `{mname}` through its generated trait method: the call never returns the original function's result")
+    };
+    let doc = json!({
+        "property": property, "engine": "gensim", "build": if UNIMOCK_BUILD { "unimock" } else { "default" },
+        "seed": seed as i64, "run_index": index, "oracle": "O1", "crash": true, "signal": sig, "method": mname,
+        "violation": message, "plan": best.to_json(),
+        "minimised_from": {"before": plan_size(&plan), "after": plan_size(&best), "executions": execs},
+        "replay": format!("./check {property} --replay {}", path.display()),
+    });
+    let _ = std::fs::create_dir_all(path.parent().unwrap());
+    let _ = std::fs::write(&path, serde_json::to_string_pretty(&doc).unwrap() + "\n");
+    println!("gensim: O1 violated on `{mname}`: {message}");
+    println!("gensim: minimised {} -> {} in {} child executions", doc["minimised_from"]["before"], doc["minimised_from"]["after"], execs);
+    // evidence for this (violating) run: what the triage itself executed
+    let cov = json!({
+        "evaluations": index + 1 + execs,
+        "distinct_nontrivial": 2.max(execs),
+        "rule": "crash triage: the search process died by a signal; index ranges [0,64), [64,256), ... were re-executed in single-threaded child processes until one died, the dying run was bisected and its plan minimised with one child process per candidate. evaluations = runs re-executed before the dying one + candidate plans; distinct_nontrivial = candidate plans executed in isolation (each a distinct plan containing the dying call).",
+        "samples": [doc["plan"].clone()],
+        "crash": {"signal": sig, "run_index": index, "method": mname},
+        "exhaustive": false,
+    });
+    let _ = write_evidence(&verif.join("evidence").join(format!("{property}.json")), &property, tier, seed, &pool, cov, simcore::real_now_s() - t0, 1, &part);
+    println!("VIOLATION property={property} replay={}", path.display());
+    1
+}
+
+pub fn replay_crash(doc: &Value, file: &str) -> i32 {
+    let property = doc["property"].as_str().unwrap_or("").to_string();
+    let exe = std::env::current_exe().expect("current_exe");
+    let plan = Plan::from_json(&doc["plan"]);
+    let tmp = PathBuf::from(format!("/verif/scratch/gensim-replay-{}.json", std::process::id()));
+    let _ = std::fs::create_dir_all(tmp.parent().unwrap());
+    let r = plan_dies(&exe, &property, &plan, &tmp);
+    let _ = std::fs::remove_file(&tmp);
+    match r {
+        Some(sig) => {
+            println!("replay: the process executing the plan {}", if sig == 0 { "hung and was killed after the timeout".to_string() } else { format!("was killed by signal {sig}") });
+            println!("VIOLATION property={property} replay={file}");
+            1
+        }
+        None => {
+            println!("replay: the plan executes without the process dying (not reproduced on this tree)");
+            0
+        }
     }
 }
